@@ -8,11 +8,14 @@ ID = "C10"
 LEAN_MODULES = ["LhasaV.Props.C10"]
 VH_FEATURES = []
 THEOREMS = {"stripSlashes_no_lead": "full", "full_path_flat": "full", "full_path_relative": "full", "full_path_contained": "full: no .. component, relative (given C11's invariant; name != ..)", "dotdot_name_possible": "full: the side condition is necessary",
+            "run_contained_w": "full at model level: w=DIR (relative, no '..'), any of f q i n and wildcards, ANY archive and answers: every mutation below cwd/DIR except the mkdirs of DIR's own missing components",
+            "run_contained_w_cwd": "full: whatever DIR is, everything stays below cwd (both models)",
+            "test_touches_nothing": "full: lha t leaves the file system exactly as it was", "dry_run_touches_nothing": "full: xn / en likewise, no answer consumed",
             "run_contained_messages": "full: whole-run containment transferred to the message-bearing model (the one tied byte for byte to the tool)",
             "guard_resolves_below_cwd": "full: any file system state", "deferred_link_contained": "full: mutations of a deferred link creation stay under cwd", "deferred_link_refused": "full",
             "run_contained": "FULL STATEMENT (model of the repaired tool, no w=): ANY archive, ANY prompt answers: every mutation of the whole run is below the extraction directory",
             "safe_links_resolve_inside": "full: safe links never lead out",
-            "(runs with w=DIR; the unlogged parent-directory time stamps)": "correspondence (canary + complete tree = model)"}
+            "(w=DIR with '..' or absolute DIR - the user's own choice; list/print have no file-system argument in the model; parent-directory time stamps)": "correspondence (canary + complete tree = model)"}
 TRUSTED = ["abstract file system LhasaV.Model.Fs (no hard links, single user, symlink resolution with a loop bound) and the extraction "
            "model LhasaV.Model.Extract; both tied to the real tool by comparing the complete resulting tree (types, modes, times, contents, "
            "link targets) after every generated run, as root and as an unprivileged user",
@@ -73,6 +76,11 @@ def alphabet(r, base):
     A.append(T.Entry("link", b"a/llll", target=b"d"))                         # 42
     A.append(T.Entry("link", b"p", target=b"a/llll"))                         # 43
     A.append(T.Entry("link", b"p/q/m", target=b"/zz"))                        # 44
+    # metadata applied at the END of the archive through a link that has meanwhile become dangerous: e -> ../outside (deferred), e -> ./d
+    # (replaces the placeholder), the directory e/sub/ (lands in d/sub, metadata pending), nothing after it; /outside/sub exists
+    A.append(T.Entry("dir", b"e/sub/", perms=0o40777, mtime=1000000007))     # 45
+    A.append(T.Entry("dir", b"aaaa/sub/", perms=0o40711, mtime=1000000008))  # 46
+    A.append(T.Entry("dir", b"b/sub/", perms=0o40777, mtime=1000000009))     # 47
     # every file member records a modification time (a metadata call is one more thing that can land outside)
     for i, e in enumerate(A):
         if e.kind == "file" and not e.mtime:
@@ -178,7 +186,7 @@ def top_level(listing):
     return sorted({x.split("=")[0].split("/")[1] for x in listing.split(";") if x})
 
 
-EXPECT_OUTSIDE = "/6f757473696465=d755,1000;/6f757473696465/63616e617279=f644,1000,6,%04x" % E.crc16(b"canary")
+EXPECT_OUTSIDE = "/6f757473696465=d755,1000;/6f757473696465/63616e617279=f644,1000,6,%04x;/6f757473696465/737562=d700,1000" % E.crc16(b"canary")
 
 
 def run_case(ctx, env, c):
@@ -280,5 +288,5 @@ LEVEL_TEXT = ("Kernel-checked whole-run containment over the file-system model: 
               "(root and non-root) and the dangerous-link predicate by a dense three-way tie.")
 LEVEL_NOTE = ("Partial only in that the file system is a model: whole-run containment (run_contained) is proved for every archive over the "
               "Fs/Extract/Reader models of the repaired tool (the proof attempt on the pinned tree exposed two defects, fixes e479cab and 4393d80); "
-              "the models are tied to the real tool by complete-tree comparison and a canary area; w=DIR runs by correspondence.")
+              "the models are tied to the real tool by complete-tree comparison and a canary area; w=DIR with a clean relative DIR is proved (run_contained_w), other DIRs by correspondence; lha t and the dry run are proved to touch nothing.")
 TECHNIQUE = "Lean 4 proof (whole-run containment invariant over the Fs/Extract/Reader models; safe-link resolution; deferred-link guard) + file-system-model correspondence + canary observation"
